@@ -42,7 +42,7 @@ def correspondence(ctx, model_ok=True):
     rng = ctx.rng.fork("c01")
     failures = []
     broken = []
-    n_gen = 2000 if ctx.thorough else 270
+    n_gen = 2000 if ctx.thorough else 800
     gen = progs.generated(rng, PROFILES, n_gen)
     probes = probes_gc.all_probes()
     scripts = progs.corpus_scripts()
